@@ -425,7 +425,13 @@ impl C06Node {
             return (h, v, if outgoing { 500 } else { 600 });
         }
         let h = rng.below(NHASH as u64) as usize;
-        let v = *rng.pick(&[600u64, 2000, 2200, 2220, 50_000, 50_222, 50_223, 100_000, 100_222, 100_223, 200_000]);
+        let mut v = *rng.pick(&[600u64, 2000, 2200, 2220, 50_000, 50_222, 50_223, 100_000, 100_222, 100_223, 200_000]);
+        // now and then a small part at or below the trim thresholds of the commitment (497 sat for offered, 507 sat for
+        // received HTLCs at FEERATE): the node must not LIST such an HTLC (policy-commitment-outputs-trimmed); a payment
+        // split into many such parts would otherwise escape the in-flight accounting
+        if rng.chance(1, 14) {
+            v = *rng.pick(&[1u64, 100, 330, 400, 496, 497, 498, 506, 507, 508]);
+        }
         let cltv = if outgoing { *rng.pick(&[500u32, 500, 500, 515, 610]) } else { *rng.pick(&[600u32, 600, 600, 520]) };
         (h, v, cltv)
     }
@@ -516,7 +522,16 @@ impl Group for C06Node {
                     [l, ty] if *ty == "h" || *ty == "d" => (l.to_string(), ty.to_string()),
                     _ => ("0".to_string(), "u".to_string()),
                 };
-                Some(format!("init {} {} {} {} {} {}", nch, p.max_routing_fee_msat, p.max_feerate_percentage, p.cltv_delta, vl, vt))
+                // the commitment feerate of the harness and the HTLC-transaction weights of the linked LDK for the
+                // channel type in use: the model computes the trim thresholds from them and the MIN_DUST_LIMIT_SATOSHIS
+                // constant the translator reads from the source
+                let features = lightning_signer::util::test_utils::make_test_channel_setup().features();
+                let wt = lightning_signer::lightning::ln::chan_utils::htlc_timeout_tx_weight(&features);
+                let ws = lightning_signer::lightning::ln::chan_utils::htlc_success_tx_weight(&features);
+                Some(format!(
+                    "init {} {} {} {} {} {} {} {} {}",
+                    nch, p.max_routing_fee_msat, p.max_feerate_percentage, p.cltv_delta, vl, vt, FEERATE, wt, ws
+                ))
             }
             ["keysend", a, b, c, "direct"] => Some(format!("keysend {} {} {}", a, b, c)),
             ["invoice", a, b, c, d, e, "direct"] => Some(format!("invoice {} {} {} {} {}", a, b, c, d, e)),
@@ -578,6 +593,9 @@ impl Group for C06Node {
             // approvals recorded as zero: an amountless BOLT-11 invoice (through the approver and directly) and a keysend of
             // 0 msat back no HTLC of any size, on one or several channels; covered by incoming value they are forwards
             split(&format!("init 3|invoice 0 0 {t} 3600 0|cpsign 0 new - 0:100000:500|cpsign 1 new - 0:600:500 p1|hval 2 new 0:2000:500 -|keysend 1 0 {t}|cpsign 0 new - 1:600:500|hval 1 new 1:100000:500 - p1|invoice 2 0 {t} 3600 1 direct|cpsign 2 new - 2:200000:500|restart|cpsign 2 new - 2:200000:500|cpsign 0 new - 0:600:500|hval 0 new - 0:2000:600|revoke 0|cpsign 0 new 0:2000:600 0:2000:500|cprevoke 0|cpsign 0 new 0:2000:600 0:2223:500|invoice 0 0 {t} 3600 0|invoice 0 5000 {t} 3600 0")),
+            // small parts around the trim thresholds (offered: 497 sat, received: 507 sat at the harness feerate): listed
+            // below the threshold = refused on every entry point, whatever the hash; at the threshold they count in full
+            split(&format!("init 2|keysend 0 1000 {t}|cpsign 0 new - 0:400:500 p1|cpsign 0 new - 0:506:500|cpsign 0 new - 2:100:500 p1|cpsign 0 new 0:496:600 - p1|cpsign 0 new 0:497:600 -|hval 1 new 0:496:500 - p1|hval 1 new - 0:506:600|hval 1 new 0:1:500 -|hval 1 new 0:497:500 -|hval 1 new - 0:507:600 p1|cpsign 1 new - 0:507:500 p1|keysend 1 2000000 {t}|cpsign 1 new - 1:507:500,1:507:500,1:507:500,1:507:500 p1|cprevoke 1|cpsign 1 new - 1:507:500,1:507:500,1:507:500,1:507:500,1:400:500 p1|cpsign 1 new - 1:507:500,1:507:500,1:507:500,1:507:500,1:507:500")),
             // u64 extreme approval: a + max_routing_fee overflows
             split(&format!("init 2|keysend 0 18446744073709551615 {t}|cpsign 0 new - 0:2000:500|cpsign 1 new - -")),
         ]
@@ -883,6 +901,9 @@ impl Group for C06Node {
         let mut co = CaseOut::default();
         let mut world: Option<World> = None;
         let mut dead = false;
+        if std::env::var("C06_DEBUG").is_ok() {
+            std::panic::set_hook(Box::new(|info| eprintln!("PANIC {}\n{}", info, std::backtrace::Backtrace::force_capture())));
+        }
         let (mut acc_with_htlcs, mut refused) = (false, false);
         for (i, op) in ops.iter().enumerate() {
             let t: Vec<&str> = op.split_whitespace().collect();
@@ -901,7 +922,15 @@ impl Group for C06Node {
             let w = world.as_mut().expect("init first");
             let r = catch_unwind(AssertUnwindSafe(|| exec_op(w, &t, i, &mut co)));
             match r {
-                Err(_) => {
+                Err(e) => {
+                    if std::env::var("C06_DEBUG").is_ok() {
+                        let msg = e
+                            .downcast_ref::<String>()
+                            .cloned()
+                            .or_else(|| e.downcast_ref::<&str>().map(|s| s.to_string()))
+                            .unwrap_or_default();
+                        eprintln!("panic at op {} ({}): {}", i, op, msg);
+                    }
                     dead = true;
                     co.tags.insert(format!("{}:panic", t[0]));
                     co.out.push("panic".into());
@@ -1054,18 +1083,39 @@ fn exec_op(w: &mut World, t: &[&str], at: usize, co: &mut CaseOut) -> Option<(St
                     let parameters = channel_parameters.as_counterparty_broadcastable();
                     let keys = chan.make_counterparty_tx_keys(&point);
                     let htlcs = Channel::htlcs_info2_to_oic(&o2, &r2);
+                    // as a node does it: the transaction and its witness scripts are built from the HTLCs that get an
+                    // output (an HTLC below the trim threshold of its direction has none; its value goes to the fee), the
+                    // HTLC lists are handed over in full
+                    let features = chan.setup.features();
+                    let lim = |w: u64| 330 + FEERATE as u64 * w / 1000;
+                    let (lo, lr) = (
+                        lim(lightning_signer::lightning::ln::chan_utils::htlc_timeout_tx_weight(&features)),
+                        lim(lightning_signer::lightning::ln::chan_utils::htlc_success_tx_weight(&features)),
+                    );
+                    let with_output: Vec<_> = htlcs
+                        .iter()
+                        .filter(|h| h.amount_msat / 1000 >= if h.offered { lo } else { lr })
+                        .cloned()
+                        .collect();
+                    let ctx = chan.make_counterparty_commitment_tx_with_keys(
+                        keys.clone(),
+                        n,
+                        FEERATE,
+                        to_holder,
+                        to_cp,
+                        with_output.clone(),
+                    );
                     let scripts = build_tx_scripts(
                         &keys,
                         to_cp,
                         to_holder,
-                        &htlcs,
+                        &with_output,
                         &parameters,
                         &chan.keys.pubkeys().funding_pubkey,
                         &cp_funding,
                     )
                     .expect("scripts");
                     let witscripts: Vec<Vec<u8>> = scripts.iter().map(|s| s.as_bytes().to_vec()).collect();
-                    let ctx = chan.make_counterparty_commitment_tx_with_keys(keys, n, FEERATE, to_holder, to_cp, htlcs);
                     let tx = ctx.trust().built_transaction().transaction.clone();
                     chan.sign_counterparty_commitment_tx(&tx, &witscripts, &point, n, FEERATE, o2.clone(), r2.clone())
                         .map(|_| ())
@@ -1119,7 +1169,22 @@ fn exec_op(w: &mut World, t: &[&str], at: usize, co: &mut CaseOut) -> Option<(St
             let to_b = BASE_HOLDER.saturating_sub(total(&off));
             let to_c = BASE_CP.saturating_sub(total(&rcv));
             let (o2, r2) = (to_info(&off), to_info(&rcv));
-            let mut cctx = channel_commitment(&w.ctx, &w.chans[c].ctx, n, FEERATE, to_b, to_c, o2.clone(), r2.clone());
+            // as the peer does it: the commitment transaction it counter-signs has outputs (and HTLC signatures) only for
+            // the HTLCs at or above the trim threshold of their direction; the request lists every HTLC
+            let (lo, lr) = {
+                let features = w.chans[c].ctx.setup.features();
+                let lim = |wt: u64| 330 + FEERATE as u64 * wt / 1000;
+                (
+                    lim(lightning_signer::lightning::ln::chan_utils::htlc_timeout_tx_weight(&features)),
+                    lim(lightning_signer::lightning::ln::chan_utils::htlc_success_tx_weight(&features)),
+                )
+            };
+            let o2f: Vec<HTLCInfo2> = o2.iter().filter(|h| h.value_sat >= lo).cloned().collect();
+            let r2f: Vec<HTLCInfo2> = r2.iter().filter(|h| h.value_sat >= lr).cloned().collect();
+            if o2f.len() != o2.len() || r2f.len() != r2.len() {
+                co.tags.insert("hval:small-part".into());
+            }
+            let mut cctx = channel_commitment(&w.ctx, &w.chans[c].ctx, n, FEERATE, to_b, to_c, o2f, r2f);
             let (csig, hsigs) = counterparty_sign_holder_commitment(&w.ctx, &w.chans[c].ctx, &mut cctx);
             let id = w.chans[c].ctx.channel_id.clone();
             let cp_funding = w.chans[c].ctx.setup.counterparty_points.funding_pubkey;
@@ -1132,7 +1197,18 @@ fn exec_op(w: &mut World, t: &[&str], at: usize, co: &mut CaseOut) -> Option<(St
                     let parameters = channel_parameters.as_holder_broadcastable();
                     let ctx = cctx.tx.as_ref().unwrap();
                     let trusted = ctx.trust();
-                    let htlcs = Channel::htlcs_info2_to_oic(&o2, &r2);
+                    // witness scripts for the outputs the transaction has (no output for a part below the trim
+                    // threshold of its direction), the HTLC lists in full
+                    let features = chan.setup.features();
+                    let lim = |w: u64| 330 + FEERATE as u64 * w / 1000;
+                    let (lo, lr) = (
+                        lim(lightning_signer::lightning::ln::chan_utils::htlc_timeout_tx_weight(&features)),
+                        lim(lightning_signer::lightning::ln::chan_utils::htlc_success_tx_weight(&features)),
+                    );
+                    let htlcs: Vec<_> = Channel::htlcs_info2_to_oic(&o2, &r2)
+                        .into_iter()
+                        .filter(|h| h.amount_msat / 1000 >= if h.offered { lo } else { lr })
+                        .collect();
                     let scripts = build_tx_scripts(
                         trusted.keys(),
                         to_b,
